@@ -112,6 +112,7 @@ type Prog struct {
 	ISeed uint64  `json:"iseed"`  // how definition kinds are interleaved in the rendered text
 	Expect string `json:"expect"` // "ok", or the error class the single injected fault must give
 	Shape  string `json:"shape"`  // generator's label
+	Fixed  bool   `json:"fixed,omitempty"` // hand-written case: reported as it is, not shrunk
 }
 
 // ---------------------------------------------------------------- IDL text
